@@ -333,7 +333,7 @@ func c18Window(family int, emit func(c18Case)) {
 			v     any
 			truth int // 0 true 1 false 2 nil
 		}
-		vals := []tv{{true, 0}, {false, 1}, {nil, 2}, {1, 0}, {0, 1}, {"x", 0}, {"", 1}, {[]int{1}, 0}, {[]int{}, 1}, {1.5, 0}, {0.0, 1}, {map[string]int{}, 1}, {map[string]int{"a": 1}, 0}}
+		vals := []tv{{true, 0}, {false, 1}, {nil, 2}, {1, 0}, {0, 1}, {"x", 0}, {"", 1}, {[]int{1}, 0}, {[]int{}, 1}, {1.5, 0}, {0.0, 1}, {0.5, 0}, {-0.25, 0}, {float32(0.5), 0}, {1e-9, 0}, {uint8(0), 1}, {uint16(3), 0}, {int64(-1), 0}, {map[string]int{}, 1}, {map[string]int{"a": 1}, 0}}
 		for _, t := range vals {
 			emit(c18Case{filter: "yesno", in: t.v, want: []string{"yes", "no", "maybe"}[t.truth]})
 			emit(c18Case{filter: "yesno", in: t.v, param: "ja,nein", want: []string{"ja", "nein", "maybe"}[t.truth]})
